@@ -34,7 +34,8 @@ fn main() {
     let (mut systems, mut oks, mut verdicts, mut listed, mut exempt, mut angle_variants) = (0usize, 0usize, 0usize, 0usize, 0usize, 0usize);
     let (mut nan_targets, mut undefined_errors) = (0usize, 0usize);
     let mut per_kind = std::collections::BTreeMap::new();
-    for i in 0..n {
+    // the half-turn class is APPENDED (indices n .. n + n/29): no system of the main stream is replaced
+    for i in 0..n + n / 29 {
         let sys = match i % 6 {
             0 => gen_planted(&mut rng, 10, 1e-2, &SHAPES),
             1 => gen_planted(&mut rng, 6, 0.3, &SHAPES),
@@ -56,9 +57,9 @@ fn main() {
             _ => gen_linear(&mut rng, 5, 8),
         };
         let mut sys = maybe_large(&mut rng, i, sys);
-        // (the half-turn class replaces the system AFTER the random draws above, so that adding it
-        // leaves every other system of the stream as it was)
-        let half_turn = i % 29 == 13;
+        // (the half-turn systems come after the main stream and are drawn from their own generator,
+        // so that adding the class leaves every other system as it was)
+        let half_turn = i >= n;
         if half_turn {
             half_turn_systems += 1;
         }
